@@ -516,6 +516,81 @@ static void random_histories(vh::Rng & rng, unsigned count, unsigned len)
     }
 }
 
+// Empty fields: a default-constructed field of bare array storage holds no cells and no buffer; it is a value like
+// any other (copied, assigned in both directions, moved, dumped and loaded).  A moved-from field may be assigned to.
+static void empty_fields()
+{
+    using E = covfie::field<cb::array<cv::float3>>;
+    using len1 = covfie::utility::nd_size<1>;
+    const char * tag = "empty-fields";
+    if (!vh::selected(tag)) return;
+    vh::set_case("%s", tag);
+    auto cells = [](const E & f) { return (uint64_t)f.backend().get_configuration()[0]; };
+    auto fill = [](E & f, float base) {
+        E::view_t v(f);
+        for (std::size_t i = 0; i < f.backend().get_configuration()[0]; ++i)
+            for (std::size_t j = 0; j < 3; ++j) v.at(i)[j] = base + (float)(3 * i + j);
+    };
+    auto holds = [&](const E & f, uint64_t n, float base, const char * what) {
+        vh::ev();
+        if (cells(f) != n) {
+            vh::viol(std::string(tag) + ":" + what, "field reports " + std::to_string(cells(f)) + " cells, expected " + std::to_string(n));
+            return;
+        }
+        E::view_t v(f);
+        for (std::size_t i = 0; i < n; ++i)
+            for (std::size_t j = 0; j < 3; ++j)
+                if (v.at(i)[j] != base + (float)(3 * i + j)) {
+                    vh::viol(std::string(tag) + ":" + what, "cell " + std::to_string(i) + " differs");
+                    return;
+                }
+    };
+    E a;
+    holds(a, 0, 0, "default-construct");
+    E b(a);
+    holds(b, 0, 0, "copy-construct from empty");
+    E c;
+    c = a;
+    holds(c, 0, 0, "copy-assign empty <- empty");
+    E & self = a;
+    a = self;
+    holds(a, 0, 0, "self-assign empty");
+    E d(covfie::make_parameter_pack(len1{5ul}));
+    fill(d, 10.f);
+    E d2(d);
+    d2 = a;
+    holds(d2, 0, 0, "copy-assign non-empty <- empty");
+    holds(d, 5, 10.f, "source of that copy");
+    E e;
+    e = d;
+    holds(e, 5, 10.f, "copy-assign empty <- non-empty");
+    E m(std::move(b));
+    holds(m, 0, 0, "move-construct from empty");
+    E z(covfie::make_parameter_pack(len1{0ul}));
+    E z2(z);
+    holds(z2, 0, 0, "copy of a zero-length field");
+    z2 = a;
+    holds(z2, 0, 0, "zero-length <- empty");
+    {
+        std::stringstream ss(std::ios::in | std::ios::out | std::ios::binary);
+        a.dump(ss);
+        E r(static_cast<std::istream &>(ss));
+        holds(r, 0, 0, "dump+load of an empty field");
+    }
+    // a moved-from field is assigned to (copy and move)
+    E src(covfie::make_parameter_pack(len1{4ul}));
+    fill(src, 100.f);
+    E taken(std::move(src));
+    src = d;
+    holds(src, 5, 10.f, "copy-assign to a moved-from field");
+    E src2(covfie::make_parameter_pack(len1{2ul}));
+    E taken2(std::move(src2));
+    src2 = std::move(taken);
+    holds(src2, 4, 100.f, "move-assign to a moved-from field");
+    vh::stat("empty_field_scenarios");
+    vh::sample(tag, "default-constructed / zero-length / moved-from fields copied, assigned both ways, moved, dumped and loaded", 1);
+}
+
 int main(int argc, char ** argv)
 {
     vh::init(argc, argv);
@@ -534,6 +609,7 @@ int main(int argc, char ** argv)
 #endif
 #endif
 #if defined(SH_RANDOM)
+    empty_fields();
 #if defined(SH_DIGEST)
     random_histories(rng, th ? 1500 : 150, 120);
 #else
